@@ -492,7 +492,8 @@ def new_table(cx):
         if m in b:
             v = b[m][1]
             ok = any(sym.stmt_nf(s) == sym.parse_pattern('%s = tuple(%s)' % (v, v)) for s in fn.stmts(ast.Assign))
-            fn.ob('TABLE', 'per-channel list %s is frozen into a tuple' % v, ok, fn.ast, key='tuple-' + m)
+            site = [s for s in fn.stmts(ast.Assign) if sym.stmt_nf(s) == sym.parse_pattern('%s = tuple(%s)' % (v, v))]
+            fn.ob('TABLE', 'per-channel list %s is frozen into a tuple' % v, ok, site[0] if site else fn.ast, key='tuple-' + m)
     return fn, b
 
 
@@ -511,7 +512,8 @@ def recorded_settings(cx):
         if m in b:
             v = b[m][1]
             ok = any(sym.stmt_nf(s_) == sym.parse_pattern('%s = tuple(%s)' % (v, v)) for s_ in fn.stmts(ast.Assign))
-            fn.ob('SETTINGS', 'per-channel list %s is frozen into a tuple' % v, ok, fn.ast, key='tuple-' + m)
+            site = [s_ for s_ in fn.stmts(ast.Assign) if sym.stmt_nf(s_) == sym.parse_pattern('%s = tuple(%s)' % (v, v))]
+            fn.ob('SETTINGS', 'per-channel list %s is frozen into a tuple' % v, ok, site[0] if site else fn.ast, key='tuple-' + m)
     return fn
 
 
